@@ -53,9 +53,13 @@ def admissible_pic_regs(rng, variant, data_reg):
         return hit, cmp_
 
 
-def sample_cfg(rng, variant, small=True, default_regs=None):
+def sample_cfg(rng, variant, small=True, default_regs=None, shape=None):
     nb = rng.choice([1, 2, 3, 5, 8, 13, 20, 40] if small else [1, 10, 50, 100, 200])
     msize = rng.choice([1, 2, 3, 6, 7, 10, 12, 20, 35, 60] if small else [10, 50, 200, 600])
+    if shape == "huge_methods":            # bodies beyond 508 / 512 instructions (offset clamps of the J/B builders)
+        nb, msize = rng.choice([1, 2, 3]), rng.choice([520, 700, 1100, 2100])
+    if shape == "deep":                    # long call chains
+        nb, msize = rng.choice([60, 120, 160]), rng.choice([9, 12, 18])
     if variant == "fixer":
         msize = max(msize, 1)
     data_reg = rng.choice([31, 31, 31, 30, 29, 10, 17])
@@ -81,7 +85,7 @@ def sample_cfg(rng, variant, small=True, default_regs=None):
         jit_nb_methods=nb,
         method_variation_mean=rng.choice([0.0, 0.2, 0.5, 1.0, rng.random()]),
         method_variation_stdev=rng.choice([0.1, 0.3, 0.01]),
-        call_depth_mean=rng.choice([1, 2, 3]),
+        call_depth_mean=rng.choice([1, 2, 3]) if shape != "deep" else rng.choice([6, 18, 25]),
         call_occupation_mean=rng.choice([0.0, 0.2, 0.5, 1.0, rng.random()]),
         call_occupation_stdev=rng.choice([0.1, 0.3]),
         pics_ratio=rng.choice([0.0, 0.2, 0.5, 1.0, rng.random()]),
@@ -96,7 +100,15 @@ def sample_cfg(rng, variant, small=True, default_regs=None):
     # room for the interpreter: prologue 12 + 5/6 per element + epilogue 13
     need = (12 + 13 + 6 * nb + 8) * 4
     gap = rng.choice([need, need + 64, 0x5000, 0x5000] if small else [need, 0x5000, 0x100000])
+    if shape == "deep":
+        cfg["call_occupation_mean"], cfg["method_variation_mean"] = rng.choice([0.3, 0.6]), 0.2
+    if shape == "far":                     # elements farther than 2 MiB from their call sites
+        gap = rng.choice([0x200000, 0x300000]) + need
+        cfg["jit_nb_methods"], cfg["jit_size"] = nb, nb * 6
     cfg["jit_start_address"] = cfg["interpreter_start_address"] + gap
+    if rng.random() < .15:          # unaligned requests: the generators align both down to 4
+        cfg["interpreter_start_address"] += rng.choice([1, 2, 3])
+        cfg["jit_start_address"] += rng.choice([4, 5, 6, 7])
     if variant in ("rimiss", "rimifull") and rng.random() < .3:
         cfg["shadow_stack_size"] = rng.choice([8, 64, 800, 1600])
     return cfg
@@ -169,7 +181,7 @@ def compare(job, r, mline):
     if r["exc"] is not None:
         return f"implementation raises {r['exc']}, model succeeds"
     head, mrecs, erecs = [x.strip() for x in mline.split("|")][:3]
-    _, mi, mj, md, mss, left = head.split()
+    _, mi, mj, md, mss, left = head.split()[:6]
     f = r["files"] or {}
     for nm, mv in (("int", mi), ("jit", mj), ("data", md), ("ss", mss)):
         iv = f.get(nm, "") or "-"
@@ -196,7 +208,8 @@ def compare(job, r, mline):
     return None
 
 
-def run_gen_slice(ctx, n_cfg=None, variants=VARIANTS, policies=True, label="generator"):
+def run_gen_slice(ctx, n_cfg=None, variants=VARIANTS, policies=True, label="generator",
+                  shapes=("huge_methods", "deep")):
     rng = random.Random(ctx.seed * 7368787 + 31)
     big = (not ctx.quick()) or ctx.deep
     n = n_cfg or (120 if big else 8)
@@ -206,6 +219,10 @@ def run_gen_slice(ctx, n_cfg=None, variants=VARIANTS, policies=True, label="gene
         for k in range(n):
             cfg = sample_cfg(rng, v, small=(not big) or k % 4 != 0)
             jobs.append({"variant": v, "cfg": cfg, "seed": rng.getrandbits(64)})
+        for shape in shapes:
+            for _ in range(3 if big else 1):
+                jobs.append({"variant": v, "cfg": sample_cfg(rng, v, shape=shape), "seed": rng.getrandbits(64),
+                             "shape": shape})
         if policies:
             for pol in ({"name": "last_hit_case"}, {"name": "first_hit_case"},
                         {"name": "extremes", "v": 0.0, "occ": 1.0, "maxoff": True},
@@ -216,6 +233,9 @@ def run_gen_slice(ctx, n_cfg=None, variants=VARIANTS, policies=True, label="gene
                     cfg = sample_cfg(rng, v)
                     if pol["name"] in ("last_hit_case", "first_hit_case", "all_pics_big"):
                         cfg["pics_ratio"] = rng.choice([0.6, 1.0])
+                    if pol.get("maxoff") or pol["name"] == "mem_heavy":
+                        cfg["data_size"] = rng.choice([2055, 2056, 2057, 4096, 8, 16, 24])
+                        cfg["weights"] = [1, 1, 1, 1, 1, 20, 20]
                     jobs.append({"variant": v, "cfg": cfg, "seed": rng.getrandbits(64),
                                  "policy": dict(pol, var_mean=cfg["method_variation_mean"],
                                                 var_std=cfg["method_variation_stdev"],
@@ -227,9 +247,27 @@ def run_gen_slice(ctx, n_cfg=None, variants=VARIANTS, policies=True, label="gene
                 cfg["jit_start_address"] = cfg["interpreter_start_address"] + rng.choice([0, 4, 48, 96, 100])
                 jobs.append({"variant": v, "cfg": cfg, "seed": rng.getrandbits(64)})
     results = impl_gen_parallel(jobs)
+    # second pass: the same seeds with the JIT start at / just inside / just past the end of the interpreter loop
+    fit_jobs = []
+    for job, r in list(zip(jobs, results)):
+        if r["exc"] or job.get("policy") or len(fit_jobs) >= (40 if big else 10) or rng.random() < .5:
+            continue
+        ints = r["files"]["int"]
+        nop = "13000000"
+        n_int = len(ints) // 8
+        while n_int > 0 and ints[8 * (n_int - 1): 8 * n_int] == nop:
+            n_int -= 1
+        i0 = job["cfg"]["interpreter_start_address"] // 4 * 4
+        for k in rng.sample([0, 1, 2, 5, 12, 13, 14, -1], 3):
+            cfg2 = dict(job["cfg"], interpreter_start_address=i0, jit_start_address=i0 + 4 * (n_int - k))
+            fit_jobs.append({"variant": job["variant"], "cfg": cfg2, "seed": job["seed"], "fit_overrun": k})
+    if fit_jobs:
+        fit_res = impl_gen_parallel(fit_jobs)
+        jobs += fit_jobs
+        results += fit_res
     disagreements, violations = [], []
     dist = {"by_variant": {}, "exceptions": {}, "instructions": 0, "pics": 0, "methods": 0, "events": 0,
-            "policies": 0}
+            "policies": 0, "generated_and_cfg_ok": 0, "generated_outside_cfg_ok": 0}
     model = model_gen(jobs, results) if ctx.model_ok else None
     for k, (job, r) in enumerate(zip(jobs, results)):
         dist["by_variant"][job["variant"]] = dist["by_variant"].get(job["variant"], 0) + 1
@@ -242,11 +280,27 @@ def run_gen_slice(ctx, n_cfg=None, variants=VARIANTS, policies=True, label="gene
             dist["pics"] += r["counts"][1]
             dist["methods"] += r["counts"][0]
         if model is not None:
+            if model[k].startswith("OK") and not r["exc"]:
+                ok_flag = model[k].split("|")[0].split()[6:7] == ["1"]
+                dist["generated_and_cfg_ok" if ok_flag else "generated_outside_cfg_ok"] += 1
             d = compare(job, r, model[k])
             if d:
                 disagreements.append({"kind": "generator-model-vs-impl", "job": job,
                                       "what": f"{job['variant']} seed {job['seed']} "
                                               f"{'policy ' + job['policy']['name'] if job.get('policy') else ''}: {d}"})
+        if "fit_overrun" in job:
+            k = job["fit_overrun"]
+            if k >= 1 and (r["exc"] is None or r["files"]):
+                violations.append({"kind": "overlap-not-refused", "job": job, "props": ["C04", "C01"],
+                                   "group": "overlap-not-refused",
+                                   "what": f"{job['variant']} seed {job['seed']}: the interpreter loop overruns the JIT "
+                                           f"start by {k} instruction(s) but generation "
+                                           f"{'succeeded' if r['exc'] is None else 'raised ' + r['exc']} and wrote "
+                                           f"{sorted(r['files'] or [])}"})
+            if k <= 0 and r["exc"] is not None and r["exc"] != "WrongOffsetException":
+                violations.append({"kind": "fit-refused", "job": job, "props": ["C04"], "group": "fit-refused",
+                                   "what": f"{job['variant']} seed {job['seed']}: the interpreter loop fits exactly "
+                                           f"({-k} spare) but generation raised {r['exc']}"})
         if r["globals_changed"]:
             disagreements.append({"kind": "globals-mutated", "job": job,
                                   "what": f"{job['variant']}: module-level state changed: {r['globals_changed'][:4]}"})
